@@ -14,7 +14,7 @@ import (
 func init() { register("C01", runC01) }
 
 func runC01(c *Check, tier string) {
-	c.Decides = "every component of the target state named by the property (label, command, input paths, input contents, outputs, bin output, fingerprint keys and values, platform, dependency output digests) flows into the change hash; every kind of dependency node contributes; a cached result is served only through the keyed lookup of that very target and a validated restore; outputs are stored before the result that names them."
+	c.Decides = "every component of the target state named by the property (label, command, input paths, input contents, outputs, bin output, fingerprint keys and values, platform, dependency output digests) flows into the change hash; every kind of dependency node contributes; a cached result is served only through the keyed lookup of that very target and a validated restore; outputs are stored before the result that names them; the dependency resolver hands back every dependency that resolves to a target (de-duplication only by full label); a restored file is a copy (no link whose source lies in the cache directory); every existing input file is streamed into the key (an input is skipped only when it does not exist)."
 	c.NotDec = "byte equality of restored outputs, glob resolution, command determinism, hash collisions, and anything about sequences of builds as histories."
 	ruleR01a(c, "R01a")
 	ruleR01b(c, "R01b")
